@@ -153,6 +153,13 @@ class SessionSim(Sim):
             self.check_membership(w, ctx)
         if 'nav' in self.session_oracles:
             self.check_nav(w, ctx, rng)
+            if not default and self.m.installed:
+                # the same selection with expand lexicons: relation targets that the
+                # selection lacks come back as placeholders
+                cfg2 = dict(cfg, expand='*')
+                w2, _w, exc2 = self.open(cfg2)
+                if exc2 is None:
+                    self.check_placeholder_translate(w2, dict(ctx, cfg=cfg2))
         if 'relations' in self.session_oracles:
             self.check_relations(w, ctx, rng)
         if 'expand' in self.session_oracles:
@@ -332,7 +339,8 @@ class SessionSim(Sim):
         for ss in w.synsets():
             ex[observe.ekey(ss)] = sorted(canon(tkey(t)) for t in ss.get_related())
         img['expanded'] = ex
-        img['ilis'] = sorted(str(i.id) for i in w.ilis())
+        img['ilis'] = sorted(canon([i.id, i.status, i.definition(), observe._meta(i.metadata())])
+                             for i in w.ilis())
         img['expand'] = sorted(lx.specifier() for lx in w.expanded_lexicons())
         for lx in img['lexicons'].values():
             # which other lexicons exist is not a result "of the restricted Wordnet"
@@ -374,6 +382,11 @@ class SessionSim(Sim):
             # removed and re-added within one op cannot happen; removals touch their victims
             pass
         keep = []
+        if op['op'] == 'add_ili' or (op['op'] == 'external' and False):
+            # an index load legitimately changes ILI status/definitions everywhere
+            for ses in self.retained:
+                ses['tr'] = self.transcript(ses['w'])
+                ses['htr'] = self.handle_transcript(ses['handles'])
         for ses in self.retained:
             S, default, E, missing = self.model_scope(ses['cfg'])
             if touched & (set(ses['S']) | set(ses['E'])) or S != ses['S'] or E != ses['E'] \
@@ -624,6 +637,31 @@ class SessionSim(Sim):
                     raise self.v('translate', 'Word.translate() is not the image of '
                                  'Sense.translate()', {'cfg': ctx['cfg'],
                                                        'word': observe.ekey(x)})
+
+    def check_placeholder_translate(self, w, ctx):
+        """translate() of *INFERRED* placeholders (synsets that carry only an ILI) returns
+        the target synsets carrying that ILI, like any other synset."""
+        m = self.m
+        n = 0
+        for ss in w.synsets():
+            for t in ss.get_related():
+                if t.id != INFERRED:
+                    continue
+                for tgt in list(m.installed)[:3]:
+                    want = sorted(m.synsets_with_ili(t._ili, [tgt]))
+                    with warnings.catch_warnings():
+                        warnings.simplefilter('ignore')
+                        got = sorted(observe.ekey(x) for x in t.translate(lexicon=tgt))
+                    if got != want:
+                        raise self.v('placeholder-translate', 'translate() of an inferred '
+                                     'placeholder synset does not return the target synsets '
+                                     'carrying its ILI', {'cfg': ctx['cfg'], 'ili': t._ili,
+                                                          'target': tgt, 'observed': got,
+                                                          'expected': want})
+                    self.probe('placeholder-translate')
+                n += 1
+                if n > 6:
+                    return
 
     # -- C11: relations ---------------------------------------------------------------------
     def check_relations(self, w, ctx, rng):
@@ -950,6 +988,24 @@ class SessionSim(Sim):
                                                      'synset': tk, 'observed': sorted(got2),
                                                      'expected': sorted(want2)})
                         self.probe('second-hop')
+                if bor and not args:
+                    # placeholders translate by their ILI like any synset carrying it
+                    for t in ss.get_related():
+                        if t.id != INFERRED:
+                            continue
+                        for tgt in list(m.installed)[:2]:
+                            wantt = sorted(m.synsets_with_ili(t._ili, [tgt]))
+                            with warnings.catch_warnings():
+                                warnings.simplefilter('ignore')
+                                gott = sorted(observe.ekey(x) for x in t.translate(lexicon=tgt))
+                            if gott != wantt:
+                                raise self.v('expand-placeholder-translate', 'translate() of '
+                                             'an inferred placeholder synset does not return '
+                                             'the target synsets carrying its ILI',
+                                             {'cfg': cfg, 'ili': t._ili, 'target': tgt,
+                                              'observed': gott, 'expected': wantt})
+                            self.probe('placeholder-translate')
+                        break
                 if bor:
                     self.probe('borrowed-relations')
                     if any(isinstance(r['target'], dict) for r in bor):
@@ -1004,6 +1060,40 @@ class SessionSim(Sim):
                              {'cfg': cfg, 'synset': key,
                               'missing': sorted(keys_want - keys_got)[:3],
                               'extra': sorted(keys_got - keys_want)[:3]})
+            # handles returned by translate() belong to a Wordnet restricted to the target
+            # lexicon(s): their relations follow the default expand rule of that Wordnet
+            ili0 = m.ili_of(key)
+            if ili0 and len(all_ss) <= 150:
+                for tgt in list(m.installed)[:3]:
+                    if tgt == owner:
+                        continue
+                    with warnings.catch_warnings():
+                        warnings.simplefilter('ignore')
+                        try:
+                            trans = ss.translate(lexicon=tgt)
+                        except wn.Error:
+                            continue
+                    tS = [tgt]
+                    tE, _miss = m.expand_set(tS, False, None)
+                    timg = m.image(tS, relations=True)
+                    for t in trans[:3]:
+                        tk = observe.ekey(t)
+                        if tk not in timg['synsets']:
+                            continue
+                        t_own = [r['target'] for r in
+                                 timg['synsets'][tk]['relations']['synsets'].items]
+                        t_bor = m.expanded_relations(tk, tS, tE, None)
+                        want3 = {canon(x) for x in t_own} | {canon(r['target']) for r in t_bor}
+                        got3 = {canon(tkey(x)) for x in t.get_related()}
+                        if got3 != want3:
+                            raise self.v('expand-translate-handle', 'a synset returned by '
+                                         'translate(lexicon=T) does not follow the default '
+                                         'expand rule of Wordnet(T)',
+                                         {'cfg': cfg, 'synset': key, 'target': tgt,
+                                          'translated': tk, 'expand_of_target': tE,
+                                          'observed': sorted(got3), 'expected': sorted(want3)})
+                        self.probe('translate-handle-relations')
+                    break
             # hypernym_paths terminates (budget) through placeholders
             n = 0
             if len(all_ss) <= 150:
